@@ -974,7 +974,7 @@ pub fn run(tier: Tier) -> i32 {
             pairs.push(vec![OpSpec { node: 0, kind: Kind::RepairFrom(1), level: Consistency::None }, OpSpec { node: 0, kind, level: Consistency::None }]);
         }
         let before = summary.executions;
-        let conc_bound = std::env::var("VERIF_C01_CONC_BOUND").ok().and_then(|v| v.parse().ok()).unwrap_or(tier.pick(3usize, 5));
+        let conc_bound = std::env::var("VERIF_C01_CONC_BOUND").ok().and_then(|v| v.parse().ok()).unwrap_or(tier.pick(3usize, 4));
         let lossy = ExecCfg { allow_unreachable_node: false, faulty_repairs: false, time_jumps: false, script: vec![], skew_minutes: vec![], fine_grained: false, prelude: vec![], lose_all_direct: true, n_nodes: 2, mem_store: false, allow_restart: false, check_side_conditions_every_event: false };
         // the repair races additionally start from a keyspace that already exists at the source
         // and has not been synchronised yet (otherwise the repairing node would not fetch it)
